@@ -16,7 +16,7 @@ EPS = 2.3e-16
 
 def plan(tier):
     n = 320 if tier == 'quick' else 12000
-    return dict(n_cases=n, shards=16, min_nontrivial=n // 3, min_hits={'freq': n // 2},
+    return dict(suite_monitor=True, n_cases=n, shards=16, min_nontrivial=n // 3, min_hits={'freq': n // 2},
                 watchdog_s=1500 if tier == 'quick' else 7200,
                 rule='random SPD pairs (K, M) sharing a random set of null rows/cols, sizes 6..%d, spectra spread over '
                      'decades / clustered within 0.1 rad/s / omega~1, 1..25 requested eigenvalues, both solver switches, '
